@@ -58,6 +58,8 @@ def cases(tier, rng):
             for ml in mls:
                 for pat in (('rand',) if tier == 'quick' else ('rand', 'zero', 'ones')):
                     yield {'k': 'mac', 'h': name, 'kl': kl, 'ml': ml, 'pat': pat}
+        for ml in (4099,) + ((65539,) if name in ('sha256', 'md5') else ()):          # long messages
+            yield {'k': 'mac', 'h': name, 'kl': [7, B + 3][ml % 2], 'ml': ml, 'pat': 'rand'}
         for j in range(3 if tier == 'quick' else 20):
             yield {'k': 'siblings', 'h': name, 'j': j}
         for kl1 in (0, 5, B, B + 9, 3 * B):
